@@ -91,7 +91,7 @@ def main():
             else:
                 stack = 200 if 'mergesort' in c.name else 96
             tasks.append(case_to_task(c.with_(word=W, stack=stack), allow_reject='random' in c.name))
-            if (not quick or i % 4 == 0) and 'alloc/vla' not in c.name:
+            if (not quick or i % 4 == 0) and 'alloc/vla' not in c.name and 'random' not in c.name:
                 tasks.append(case_to_task(c.with_(word=W, stack=stack, unchecked=True, name=c.name + '/unchecked'), allow_reject='random' in c.name))
     tot = [0]
 
